@@ -40,8 +40,8 @@ class Ctx:
         self.rule_text[rule] = text
         self.floors[rule] = max(self.floors.get(rule, 0), floor)
 
-    def _add(self, rule, instance, verdict, where, construct, detail):
-        if verdict == VIOLATION and where and where.count(":") >= 1:
+    def _add(self, rule, instance, verdict, where, construct, detail, positive=False):
+        if verdict == VIOLATION and not positive and where and where.count(":") >= 1:
             # a known private helper of this function was folded back into it: the rule was written against the
             # two functions, what it reads in the merged one is not a positive identification of a bad construct
             parts = where.split(":")
@@ -109,8 +109,10 @@ class Ctx:
     def holds(self, rule, instance, where="", detail=""):
         self._add(rule, instance, HOLDS, where, "", detail)
 
-    def violation(self, rule, instance, where, construct, detail):
-        self._add(rule, instance, VIOLATION, where, construct, detail)
+    def violation(self, rule, instance, where, construct, detail, positive=False):
+        # positive: the construct reported is bad whatever function it sits in (a call on a deny list), so a helper folded
+        # into this function does not weaken the identification
+        self._add(rule, instance, VIOLATION, where, construct, detail, positive=positive)
 
     def unrecognised(self, rule, instance, where, detail):
         self._add(rule, instance, UNRECOGNISED, where, "", detail)
